@@ -409,7 +409,7 @@ theorem advanceMember_spec (fuel : Nat) (s : VM) (f : FUid) (h : HUid) (i : Inst
     ∃ s' i', advanceMember (fuel + 3) f h s = .ok [] s' ∧ FlowAt s' f i' x cfg ∧ s'.r = s.r ∧
       hview i' = (hview i).map
         (if ((hview i).filter fun t => t.2.2 ≠ .inactive && t.2.1 = pe + 1).length + 1 ≥ n
-          then setCore h (pe + 2) .merging else setCore h (pe + 1) .active) := by
+          then setCore h (pe + 2) .merging else setCore h (pe + 1) .active) ∧ i'.status = i.status := by
   have hsz := C.hsize
   have hnm0 : NotMatchAt cfg (hd.pos + 1) := notMatchAt_of cfg (hd.pos + 1) _ (by omega) hgoto rfl
   obtain ⟨hg0, h0⟩ := setHeadPos_ok s f h i x cfg hd (hd.pos + 1) H.toFlowAt H.hh (by omega) hnm0
@@ -436,7 +436,7 @@ theorem advanceMember_spec (fuel : Nat) (s : VM) (f : FUid) (h : HUid) (i : Inst
     have H1 := headAt_setPos _ f h _ x cfg _ (pe + 1) H0 (by simp; omega) (by omega) hg1
     have H2 := headAt_setPos _ f h _ x cfg _ (pe + 2) H1 (by simp) C.hsize hg2
     have H3 := headAt_setStatus _ f h _ x cfg _ .merging H2 (by simp [hact]) (by decide) hg3
-    refine ⟨_, _, hunf _ hsl, H3.toFlowAt, rfl, ?_⟩
+    refine ⟨_, _, hunf _ hsl, H3.toFlowAt, rfl, ?_, rfl⟩
     rw [if_pos hc, hview_setStatus, hview_setPos, hview_setPos, hview_setPos]
     simp only [List.map_map]
     apply List.map_congr_left
@@ -446,7 +446,7 @@ theorem advanceMember_spec (fuel : Nat) (s : VM) (f : FUid) (h : HUid) (i : Inst
   · obtain ⟨hg1, hsl⟩ := clause_segment_parks (fuel + 1) _ f h _ x cfg _ l pe n H0 hown hgoto C.hl (by omega) C.hw
       (by simp; omega) (by rw [hcnt]; omega)
     have H1 := headAt_setPos _ f h _ x cfg _ (pe + 1) H0 (by simp; omega) (by omega) hg1
-    refine ⟨_, _, hunf _ hsl, H1.toFlowAt, rfl, ?_⟩
+    refine ⟨_, _, hunf _ hsl, H1.toFlowAt, rfl, ?_, rfl⟩
     rw [if_neg hc, hview_setPos, hview_setPos]
     simp only [List.map_map]
     apply List.map_congr_left
